@@ -128,6 +128,7 @@ pub struct Obs {
     pub cancel_with_live_tasks: bool,
     pub stale_wakes: u64,
     pub ready_now: u64,
+    pub yields: u64,
     /// threads still unfinished when the caller's closure returned (thread mode)
     pub unfinished_at_return: u32,
     pub log_hash: u64,
@@ -179,6 +180,7 @@ pub fn run_sim(prog: &Prog, kind: Kind, plan: &Plan, strat: Strat, seed: u64, re
                 cancel_with_live_tasks: false,
                 stale_wakes: 0,
                 ready_now: 0,
+                yields: 0,
                 unfinished_at_return: tr.unfinished_at_return,
                 log_hash,
             }
@@ -218,6 +220,7 @@ pub fn run_sim(prog: &Prog, kind: Kind, plan: &Plan, strat: Strat, seed: u64, re
                 cancel_with_live_tasks: ar.cancel_with_live_tasks,
                 stale_wakes: ar.stale_wakes,
                 ready_now: ar.ready_now,
+                yields: ar.yields,
                 unfinished_at_return: 0,
                 log_hash,
             }
